@@ -115,6 +115,10 @@ def fixed : Cfg := ⟨true, true⟩
 
 /-! ### segmentFMP4ReadHeader -/
 
+/-- size of the buffer for ftyp+moov.  Current code: `make([]byte, uint64(ftypSize+moovSize))` — the sum is
+computed in uint32 and wraps; fixed code: the uint64 sum, compared with the file length first. -/
+def headerReq (c : Cfg) (fs ms : Nat) : Nat := if c.guardSz then fs + ms else (fs + ms) % u32
+
 def readHeader (c : Cfg) (lib : Lib) (f : Bytes) : Res (List Track × Nat) :=
   if f.length < 8 then (.err .eof, []) else
   if tagAt f 4 != tFtyp then (.err .ftyp, []) else
@@ -128,8 +132,7 @@ def readHeader (c : Cfg) (lib : Lib) (f : Bytes) : Res (List Track × Nat) :=
   | .ok (dur, ts) =>
     if ts = 0 then (if c.guardTs then (.err .other, []) else (.panicDiv, [])) else
     let d := dur * 1000000000 / ts
-    -- current code: make([]byte, uint64(ftypSize+moovSize)) — the sum is computed in uint32
-    let req := if c.guardSz then fs + ms else (fs + ms) % u32
+    let req := headerReq c fs ms
     if c.guardSz && f.length < req then (.err .eof, []) else
     let al := [Alloc.mk req f.length]
     if f.length < req then (.err .eof, al) else
